@@ -2,12 +2,17 @@
 # tools/seedmatrix.sh [tier] : for every stored seed: does the patch apply to the current /repo, does the demo flip, which checks catch it.
 # Writes seeded/MATRIX.md
 tier=${1:-quick}
+# SHARD_I / SHARD_N: run only every N-th seed (rows go to /tmp/matrix_part_<i>.md; merge with tools/seedmatrix_merge.sh)
 out=/verif/seeded/MATRIX.md
+if [ -n "${SHARD_N:-}" ]; then out=/tmp/matrix_part_${SHARD_I}.md; fi
 echo "# Seeded changes x checks (tier=$tier, repo HEAD $(git -C /repo rev-parse --short HEAD), $(date -u +%F))" > $out
 echo >> $out
 echo "| seed | breaks | applies | demo clean/patched | caught by (exit 1 + VIOLATION) | silent |" >> $out
 echo "|---|---|---|---|---|---|" >> $out
+k=0
 for d in /verif/seeded/[A-Z]*/; do
+  k=$((k+1))
+  if [ -n "${SHARD_N:-}" ] && [ $((k % SHARD_N)) != "${SHARD_I}" ]; then continue; fi
   name=$(basename $d)
   prop=$(/venv/bin/python -c "import json;print(json.load(open('$d/meta.json'))['breaks_property'])")
   checks=$(/venv/bin/python -c "import json;m=json.load(open('$d/meta.json'));print(' '.join(m.get('run_checks',[m['breaks_property']])))")
@@ -28,4 +33,4 @@ for d in /verif/seeded/[A-Z]*/; do
   echo "| $name | $prop | $applies | $c0/$c1 | $caught | $silent |" >> $out
   rm -rf "$w"
 done
-cat $out
+if [ -z "${SHARD_N:-}" ]; then cat $out; fi
